@@ -1532,6 +1532,8 @@ def rule_round5(repo, rep):
     from ..exprnorm import comparison
 
     rule_conditionally_assigned(repo, rep)
+    rule_stale_ofm_alias(repo, rep)
+    rule_dimension_minus_one_divisor(repo, rep)
     rule_none_to_dereferencing_method(repo, rep)
     rule_quant_field_subscript(repo, rep)
     rule_cross_indexed_operands(repo, rep)
@@ -1933,3 +1935,128 @@ def rule_none_to_dereferencing_method(repo, rep):
     rep.floor("C13-y", 1)
     if n < 100:
         raise AnalysisError(f"only {n} wiring calls found")
+
+
+def _bool_eval(e, env):
+    """Truth value of a test under an assignment of its atoms (comparisons, names, calls are opaque atoms keyed by their normal text)."""
+    if isinstance(e, ast.BoolOp):
+        vals = [_bool_eval(v, env) for v in e.values]
+        return all(vals) if isinstance(e.op, ast.And) else any(vals)
+    if isinstance(e, ast.UnaryOp) and isinstance(e.op, ast.Not):
+        return not _bool_eval(e.operand, env)
+    return env[str(norm(e))]
+
+
+def _atoms(e, acc):
+    if isinstance(e, ast.BoolOp):
+        for v in e.values:
+            _atoms(v, acc)
+    elif isinstance(e, ast.UnaryOp) and isinstance(e.op, ast.Not):
+        _atoms(e.operand, acc)
+    else:
+        acc.add(str(norm(e)))
+    return acc
+
+
+def facts_at(mod, fn, node):
+    """(test, truth) pairs known at `node` from its enclosing if-branches and from earlier `if T: return / raise / continue` statements of the
+    enclosing blocks (flow-insensitive to reassignments of the names involved: callers use it for names assigned once)."""
+    facts = []
+    cur = node
+    while cur is not fn and cur is not None:
+        pp = mod.parents.get(cur)
+        if isinstance(pp, ast.If) and cur is not pp.test:
+            facts.append((pp.test, cur in pp.body))
+        for fld in ("body", "orelse"):
+            blk = getattr(pp, fld, None)
+            if isinstance(blk, list) and cur in blk:
+                for st in blk[: blk.index(cur)]:
+                    if isinstance(st, ast.If) and st.body and isinstance(st.body[-1], (ast.Return, ast.Raise, ast.Continue)) and not st.orelse:
+                        facts.append((st.test, False))
+        cur = pp
+    return facts
+
+
+def possible(facts, atom_text):
+    """Is `atom_text` (an atom of the tests) true under some assignment that satisfies all facts? Atoms are independent booleans, except that
+    `X == c` / `X != c` / `X > c` style atoms over the same X are not related (conservative: more assignments are possible)."""
+    import itertools
+
+    atoms = {atom_text}
+    for t, _ in facts:
+        _atoms(t, atoms)
+    atoms = sorted(atoms)
+    if len(atoms) > 14:
+        return True
+    for vals in itertools.product((False, True), repeat=len(atoms)):
+        env = dict(zip(atoms, vals))
+        if not env[atom_text]:
+            continue
+        if all(_bool_eval(t, env) == truth for t, truth in facts):
+            return True
+    return False
+
+
+def rule_dimension_minus_one_divisor(repo, rep):
+    """(z) a quotient whose divisor is `<dimension> - 1` (align_corners scaling) is evaluated only where the dimension cannot be 1: the facts of
+    the enclosing branches and of earlier returning tests, taken as a propositional formula, must exclude `<dimension> == 1`."""
+    rep.clause("C13-z", "divisors of the form <tensor dimension> - 1 in the constraint checkers are reached only where the enclosing tests exclude a dimension of 1 (NumPy yields nan / inf, int() of it raises)")
+    n = 0
+    for mn in ("tflite_model_semantic", "tflite_supported_operators"):
+        m = repo.mod(mn)
+        for q, fn in m.functions.items():
+            if "." in q and q.split(".")[0] in m.functions:
+                continue
+            for x in walk_no_nested(fn):
+                if not (isinstance(x, ast.BinOp) and isinstance(x.op, (ast.Div, ast.FloorDiv, ast.Mod))):
+                    continue
+                d = x.right
+                if not (isinstance(d, ast.BinOp) and isinstance(d.op, ast.Sub) and isinstance(d.right, ast.Constant) and d.right.value == 1 and isinstance(d.left, (ast.Name, ast.Subscript, ast.Attribute))):
+                    continue
+                n += 1
+                dim = str(norm(d.left))
+                facts = facts_at(m, fn, x)
+                bad_ = possible(facts, f"{dim} == 1")
+                rep.check(not bad_, "C13-z", f"{m.rel}:{q}", f"`{str(norm(x))}` is evaluated only where `{dim} == 1` is excluded",
+                          f"the tests that hold here ({'; '.join(('' if t_ else 'not ') + str(norm(e_))[:60] for e_, t_ in facts) or 'none'}) admit `{dim} == 1`: the quotient is nan or inf and `int()` of it raises "
+                          "(demonstrated: RESIZE_BILINEAR with align_corners and an IFM of height 1 and width 8: `ValueError: cannot convert float NaN to integer`)")
+    rep.floor("C13-z", 2)
+
+
+def rule_stale_ofm_alias(repo, rep):
+    """(aa) a rewrite that empties the producer list of the handed operator's OFM (`ofm.ops = []`, to append the replacement operators) must do it
+    for the tensor that is the operator's OFM when the replacements are created: no call that replaces the operator's output
+    (`<op>.set_output_tensor(...)`, directly or in a callee that takes the operator) may come between the alias binding and the end of the
+    function. Otherwise the old producer stays in the list of the new OFM and the un-rewritten operator is visited again."""
+    rep.clause("C13-aa", "a local alias of the handed operator's OFM whose producer list is reset is bound after the last statement that can replace the operator's output")
+    mods = [repo.mod(n) for n in ("tflite_graph_optimiser", "graph_optimiser_util", "lut", "softmax", "lstm")]
+    repl = set()
+    for m in mods:
+        for q, fn in m.functions.items():
+            if fn.args.args:
+                p0 = fn.args.args[0].arg
+                if any(isinstance(c, ast.Call) and isinstance(c.func, ast.Attribute) and c.func.attr == "set_output_tensor" and str(norm(c.func.value)) == p0 for c in ast.walk(fn)):
+                    repl.add(q)
+    n = 0
+    for m in mods:
+        for q, fn in m.functions.items():
+            if not fn.args.args or ("." in q and q.split(".")[0] in m.functions):
+                continue
+            p0 = fn.args.args[0].arg
+            aliases = [(st.lineno, st.targets[0].id) for st in walk_no_nested(fn) if isinstance(st, ast.Assign) and isinstance(st.targets[0], ast.Name) and str(norm(st.value)) in (f"{p0}.ofm", f"{p0}.outputs[0]")]
+            resets = [(st.lineno, str(norm(st.targets[0].value))) for st in walk_no_nested(fn) if isinstance(st, ast.Assign) and isinstance(st.targets[0], ast.Attribute) and st.targets[0].attr == "ops"
+                      and isinstance(st.value, ast.List) and not st.value.elts]
+            calls = [(c.lineno, str(norm(c))[:50]) for c in walk_no_nested(fn) if isinstance(c, ast.Call) and ((isinstance(c.func, ast.Name) and c.func.id in repl and c.args and str(norm(c.args[0])) == p0)
+                                                                                                              or (isinstance(c.func, ast.Attribute) and c.func.attr == "set_output_tensor" and str(norm(c.func.value)) == p0))]
+            for al, an in aliases:
+                for rl, rbase in resets:
+                    if rbase != an or rl < al:
+                        continue
+                    n += 1
+                    later = [c for c in calls if c[0] > rl]
+                    rep.check(not later, "C13-aa", f"{m.rel}:{q}", f"`{an}.ops = []` resets the producers of the tensor that is still `{p0}`'s OFM at the end of the function",
+                              f"`{later[0][1] if later else ''}` (later in the function) gives `{p0}` another output tensor: its producer list keeps `{p0}` itself, the replacement operators are appended next to it and the "
+                              "un-rewritten operator is scheduled (demonstrated: CONCATENATION with a fused RELU: AssertionError in pass_packing.build_pass)")
+    if n < 1:
+        raise AnalysisError("no reset of an OFM alias' producer list found (expected rewrite_concat_ops)")
+    rep.floor("C13-aa", 1)
